@@ -55,6 +55,9 @@ func fpPrim(p modeling.Primitive) string {
 	return fmt.Sprintf("%T(%v)", p, p.BoundingBox(modeling.PositionAttribute))
 }
 
+// maxCount bounds the element count (deeper in the thorough tier).
+var maxCount = 48
+
 func drawCount(c choice.Chooser, pool int) int {
 	switch c.Intn("n:kind", 6) {
 	case 0:
@@ -67,12 +70,17 @@ func drawCount(c choice.Chooser, pool int) int {
 	case 3:
 		return 1
 	default:
-		return 1 + c.Intn("n", 48)
+		return 1 + c.Intn("n", maxCount)
 	}
 }
 
 func (Scans) Run(c choice.Chooser, opt sim.Options) sim.Result {
 	res := sim.Result{Evals: 1}
+	maxN := 64
+	maxCount = 48
+	if opt.Tier == "thorough" {
+		maxCount, maxN = 300, 320 // deeper bounds
+	}
 	kind := c.Intn("kind", kKinds)
 	var pool int
 	switch c.Intn("pool:kind", 5) {
@@ -96,8 +104,8 @@ func (Scans) Run(c choice.Chooser, opt sim.Options) sim.Result {
 	if n < 1 {
 		n = 1
 	}
-	if n > 64 {
-		n = 64
+	if n > maxN {
+		n = maxN
 	}
 	// empty meshes are element counts too (primitive scans only: an attribute
 	// scan on a mesh without the attribute is rejected by both variants)
